@@ -310,7 +310,8 @@ _ADDED = {
            "R-ISLAND-COPY (a function that refreshes an island-ordered copy nothing inside it consumes refreshes it on every path "
            "after each write to either side, nisland == 0 excepted).",
     "C18": "Added: R-WAKE-PRUNE (no collision pair with an awake side is discarded by a sleep test; finite evaluation of the "
-           "pruning guards).",
+           "pruning guards). Also R-RUNTIME-STATE: no function of engine_sleep.c reads a mjModel field X0 whose run-time copy d->X "
+           "exists in mjData (wake / sleep decisions are taken on run-time state such as d->eq_active).",
     "C20": "Added: R-CLEAR-COUNTS for every function that zeroes nefc (the counters ne/nf/nl and the contact efc_address values "
            "are cleared with it)."
            " Also: the arena size test cannot wrap (every unsigned subtraction in it is non-negative under pstack + parena <= narena) and R-ARENA-STALE (what a rewind of d->parena releases is cleared with it; shared with C01).",
